@@ -1,10 +1,10 @@
 SPECIFICATION Spec
 CONSTANT LogHist = FALSE
-CONSTANT MCObj = {"o1", "o2"}
+CONSTANT MCObj = {"o1"}
 CONSTANT MCHnd = {}
 CONSTANT MCBlk = {}
 CONSTANT MCTokenFirst = TRUE
-CONSTANT MCFailureTokens = TRUE
+CONSTANT MCFailureTokens = FALSE
 CONSTANT MCReqs = {"okA", "okA2", "hashA", "okB", "badchar", "unknown", "star0", "star1", "methfail", "nullphrase", "nullsetting", "longphrase"}
 VIEW View
 INVARIANT TypeOK FailClosed NoStale TokenShape ShortSizes WipedIffValidated ResultIsFunction
